@@ -3,32 +3,32 @@ package main
 // Driver for one long-lived SMT solver process (z3 -in by default).
 
 import (
-	"os"
 	"bufio"
 	"fmt"
 	"io"
 	"math/big"
+	"os"
 	"os/exec"
 	"strings"
 	"time"
 )
 
 type Solver struct {
-	cmd     *exec.Cmd
-	in      io.WriteCloser
-	out     *bufio.Reader
-	lines   chan string
-	level   int
-	nDef    int
-	script  []string // commands issued at path level (level 1) since path start
-	Queries int
+	cmd      *exec.Cmd
+	in       io.WriteCloser
+	out      *bufio.Reader
+	lines    chan string
+	level    int
+	nDef     int
+	script   []string // commands issued at path level (level 1) since path start
+	Queries  int
 	Timeouts int
-	Time    time.Duration
-	Errors  []string
-	bin     string
-	timeout int // ms per query
-	seed    int
-	logW    io.Writer
+	Time     time.Duration
+	Errors   []string
+	bin      string
+	timeout  int // ms per query
+	seed     int
+	logW     io.Writer
 }
 
 func NewSolver(bin string, timeoutMs int, seed int) (*Solver, error) {
